@@ -1089,7 +1089,7 @@ def C10(tier):
     nh, steps = (16, 80) if tier == 'quick' else (120, 160)
     bad = None
     cases = 0
-    prefixes = [None, 'q', 'jobs', 'a-b', 'z9', '']        # '' is a prefix like any other, not "no prefix"
+    prefixes = [None, 'q', 'jobs', 'a-b', 'z9', '', 'shard5', '2025-q1']      # digits of the counter may occur in a prefix        # '' is a prefix like any other, not "no prefix"
     for h in range(nh):
         rnd = random.Random(seed0 * 1000 + h)
         d = tempfile.mkdtemp()
@@ -1159,7 +1159,7 @@ def C10(tier):
         if bad:
             break
     return [result('C10.standin.queue_histories', bad is None,
-                   '%d random histories x %d steps over 5 prefixes (none extending another by "-"), both sides, ttl, ordinary keys' % (nh, steps), cases, bad)]
+                   '%d random histories x %d steps over 8 prefixes (none extending another by "-"; the empty one and two containing digits among them), both sides, ttl, ordinary keys' % (nh, steps), cases, bad)]
 
 
 # ====================================================================== check() (C17)
